@@ -159,7 +159,10 @@ PROPS = {
         "stages": [("core", stage_core, {"n_quick": 1500, "n_thorough": 20000}),
                    ("pure", stage_pure, {"suites": ["can_get"], "n_quick": 10, "n_thorough": 10}),
                    ("subfsm", stage_pure, {"suites": ["subfsm"], "n_quick": 4000, "n_thorough": 80000, "widen": 1}),
-                   ("gw", stage_gw, {"profiles": [("access", 500, 6000), ("scacc", 500, 4000), ("accrefs", 300, 3000), ("http", 400, 3000), ("basic", 100, 1200), ("wild", 0, 1000)]})],
+                   ("gw", stage_gw, {"profiles": [("access", 500, 6000), ("scacc", 500, 4000), ("accrefs", 300, 3000), ("http", 400, 3000), ("basic", 100, 1200), ("wild", 0, 1000)],
+                                     # "left with no direct subscription" after a refused, failed or timed-out access request is decided by the
+                                     # direct-count ledger of C08
+                                     "monitor_props": ("C04", "C08")})],
         "rule": "histories with a consistent access policy per (token, resource) that changes only together with a reaccess event, token event or "
                 "system reset; every access outcome (grant, get:false, accessDenied, internal error, timeout); subscribe/get/call/auth with "
                 "resource responses, concurrent requests on one resource; monitor: every data delivery for a directly requested resource needs an "
